@@ -34,6 +34,9 @@ Supported(c) ==
   \* eval_xc_cider builds the density tuple for libxc-backed models (MappedXC2) with is_mgga=True:
   \* they need the meta-GGA density vector (a GGA-level one is refused with IndexError)
   /\ (c.mix = "libxc2" => SLLevel(c.sl) = "MGGA")
+  \* a meta-GGA semilocal remainder needs the meta-GGA density vector ("only GGA-level XC functionals can be used with
+  \* GGA-level CIDER functionals", make_cider_calc)
+  /\ (c.mix = "mgga_mix" => SLLevel(c.sl) = "MGGA")
 IntegratorClass(c) == IF c.nldf # "none" THEN "NLDFNumInt" ELSE "CiderNumInt"
 GridsClass(c) == IF c.nldf # "none" THEN "CiderGrids" ELSE "Grids"
 StandIn(c) == IF SLLevel(c.sl) = "MGGA" THEN "R2SCAN" ELSE "PBE"
